@@ -301,8 +301,12 @@ fn run_crash<K: HKey>(
     let mut st = Store::<K>::new(&root, cfg);
     let mut all_ops = vec![json!({"op": "open"})];
     all_ops.extend(ops.iter().cloned());
+    // env.from: images are only taken from this operation index on (long histories: the interesting part is the end)
+    let from = env["from"].as_u64().unwrap_or(0) as usize;
     for (i, op) in all_ops.iter().enumerate() {
-        install_boundary_handler(&root, &imgdir, bd.clone());
+        if i >= from {
+            install_boundary_handler(&root, &imgdir, bd.clone());
+        }
         let r = st.exec(op, sel0 + i);
         shim::uninstall();
         let obs = st.observe();
